@@ -374,6 +374,58 @@ def close(a, b, rel=1e-9, abs_=1e-12):
     return abs(a - b) <= rel * max(abs(a), abs(b)) + abs_
 
 
+class _SerialPool:
+    """in-process stand-in for multiprocess.Pool (results in submission order)"""
+
+    def __init__(self, n=None, *a, **k):
+        self.n = n
+
+    def __enter__(self):
+        return self
+
+    def __exit__(self, *a):
+        return False
+
+    def map(self, f, it, chunksize=None):
+        return [f(x) for x in it]
+
+    def imap(self, f, it, chunksize=1):
+        return iter([f(x) for x in it])
+
+    imap_unordered = imap
+
+    def starmap(self, f, it, chunksize=None):
+        return [f(*a) for a in it]
+
+    def apply(self, f, args=(), kwds=None):
+        return f(*args, **(kwds or {}))
+
+    def close(self):
+        pass
+
+    def join(self):
+        pass
+
+    def terminate(self):
+        pass
+
+
+class serial_pools:
+    """context manager: multiprocess.Pool -> in-process evaluation, for checks of properties that are not about
+    process pools (C08 is).  srlife forks a pool per Picard iteration of the coupled solve; forking a process whose
+    JAX runtime has started threads can deadlock, which would turn a check into a time-out."""
+
+    def __enter__(self):
+        import multiprocess
+        self._mp, self._old = multiprocess, multiprocess.Pool
+        multiprocess.Pool = _SerialPool
+        return self
+
+    def __exit__(self, *a):
+        self._mp.Pool = self._old
+        return False
+
+
 def main(pid, run, replay=None):
     """entry point used by /verif/check"""
     import argparse
